@@ -39,6 +39,15 @@ def check(ctx, cfg):
     r1_closure(ctx, cfg)
     r3(ctx, cfg)
     r4(ctx, cfg)
+    r5(ctx, cfg)
+
+
+def r5(ctx, cfg):
+    """"... and nothing rolled back": a query issued from a `reply` that absorbs a failed sub-message must not see what that
+    sub-message wrote before failing - so every sub-message runs in a cache layer of its own that is dropped with the failure
+    (the C02.R1 obligations, under C10's id)"""
+    from rules import C02
+    C02.r1(ctx, cfg, R="C10.R5")
 
 
 def r4(ctx, cfg):
